@@ -33,9 +33,9 @@ type c18Call struct {
 type c18Case struct {
 	Seed       uint64      `json:"seed"`
 	Procs      int         `json:"procs"`
-	Shared     int         `json:"shared"`      // bugs existing before the workers start
-	KeepHandle bool        `json:"keep_handle"` // workers keep *BugCache handles across calls instead of resolving each time
-	CacheSize  int         `json:"cache_size"`  // 0 = default (no eviction at these sizes)
+	Shared     int         `json:"shared"`           // bugs existing before the workers start
+	KeepHandle bool        `json:"keep_handle"`      // workers keep *BugCache handles across calls instead of resolving each time
+	CacheSize  int         `json:"cache_size"`       // 0 = default (no eviction at these sizes)
 	Delays     bool        `json:"delays,omitempty"` // inject sleeps/yields before cache lock acquisitions (hook, build tag verif)
 	Workers    [][]c18Call `json:"workers"`
 }
@@ -571,7 +571,7 @@ func runC18Recency(tb report.TB, rep *report.Reporter, c c18RecencyCase) {
 		if err != nil {
 			rep.Fail(tb, "C18/eviction/edit-after-resolve-fails/"+Normalize(err.Error()), err.Error(), c)
 		}
-	case <-time.After(5 * time.Second):
+	case <-time.After(30 * time.Second): // generous: a loaded machine must not turn a slow commit into an alarm
 		dump := allGoroutines()
 		_ = os.RemoveAll(w.Dir) // the blocked goroutine cannot be cancelled: leave the world behind
 		rep.Fail(tb, "C18/eviction/most-recently-resolved-bug-evicted", fmt.Sprintf("cache size %d, %d bugs: a bug was resolved (loaded before: %v), then ONE other bug was loaded, and the edit through the handle blocks forever: the eviction chose the bug used a moment ago instead of the least recently used one\n%s", c.Size, c.Bugs, hit, truncate(dump, 2500)), c)
@@ -580,4 +580,96 @@ func runC18Recency(tb report.TB, rep *report.Reporter, c c18RecencyCase) {
 
 func TestC18Recency(t *testing.T) {
 	Drive(t, "C18", genC18Recency, runC18Recency)
+}
+
+// ---------------------------------------------------------------- a snapshot that was handed out never changes
+
+type c18StableCase struct {
+	Seed  uint64   `json:"seed"`
+	Edits []string `json:"edits"` // comment title close open label editfirst
+}
+
+func genC18Stable(t *rapid.T) c18StableCase {
+	return c18StableCase{Seed: rapid.Uint64().Draw(t, "seed"),
+		Edits: rapid.SliceOfN(rapid.SampledFrom([]string{"comment", "comment", "title", "close", "open", "label", "editfirst"}), 1, 10).Draw(t, "edits")}
+}
+
+func snapshotSummary(s *bug.Snapshot) string {
+	var sb strings.Builder
+	fmt.Fprintf(&sb, "title=%q status=%v labels=%v ops=%d timeline=%d comments=[", s.Title, s.Status, s.Labels, len(s.Operations), len(s.Timeline))
+	for _, c := range s.Comments {
+		fmt.Fprintf(&sb, "%q/%d files;", c.Message, len(c.Files))
+	}
+	sb.WriteString("] history=[")
+	for _, it := range s.Timeline {
+		switch x := it.(type) {
+		case *bug.CreateTimelineItem:
+			fmt.Fprintf(&sb, "c%d;", len(x.History))
+		case *bug.AddCommentTimelineItem:
+			fmt.Fprintf(&sb, "a%d;", len(x.History))
+		default:
+			sb.WriteString("-;")
+		}
+	}
+	fmt.Fprintf(&sb, "] actors=%d participants=%d", len(s.Actors), len(s.Participants))
+	return sb.String()
+}
+
+// runC18Stable: the cache hands its snapshot of a bug to readers that use it without holding any lock (its own
+// excerpt and search-index updates on behalf of another request, the API resolvers). A later edit therefore
+// must not change a snapshot that a reader already holds - otherwise a reader racing with an edit sees torn
+// data (on the pinned tree: a nil pointer dereference in the index update, F25). Decided without threads:
+// take a snapshot before every edit, and after all edits each of them still reads as it did when taken.
+func runC18Stable(tb report.TB, rep *report.Reporter, c c18StableCase) {
+	w, err := NewCWorld(1, c.Seed)
+	if err != nil {
+		tb.Fatalf("harness: %v", err)
+	}
+	defer w.Close()
+	r := w.R[0]
+	me, _ := r.Cache.GetUserIdentity()
+	bc, _, err := r.Cache.Bugs().NewRaw(me, 1000, "stable snapshot", "first message", nil, nil)
+	if err != nil {
+		tb.Fatalf("harness: %v", err)
+	}
+	type held struct {
+		snap *bug.Snapshot
+		want string
+		at   int
+	}
+	var helds []held
+	for i, e := range c.Edits {
+		s := bc.Snapshot()
+		helds = append(helds, held{s, snapshotSummary(s), i})
+		ts := int64(2000 + i)
+		switch e {
+		case "comment":
+			_, _, err = bc.AddCommentRaw(me, ts, fmt.Sprintf("comment %d", i), nil, nil)
+		case "title":
+			_, err = bc.SetTitleRaw(me, ts, fmt.Sprintf("title %d", i), nil)
+		case "close":
+			_, err = bc.CloseRaw(me, ts, nil)
+		case "open":
+			_, err = bc.OpenRaw(me, ts, nil)
+		case "label":
+			_, _, err = bc.ChangeLabelsRaw(me, ts, []string{fmt.Sprintf("l%d", i)}, nil, nil)
+		case "editfirst":
+			_, _, err = bc.EditCreateCommentRaw(me, ts, fmt.Sprintf("first message, edit %d", i), nil)
+		}
+		_ = err // a refused edit (closing a closed bug) changes nothing, which is fine here
+		if i%3 == 2 {
+			_ = bc.CommitAsNeeded()
+		}
+	}
+	rep.Case(strings.Join(c.Edits, ","), len(c.Edits) >= 2, []string{"snapshot-stability"}, c)
+	for _, h := range helds {
+		if got := snapshotSummary(h.snap); got != h.want {
+			rep.Fail(tb, "C18/snapshot-handed-out-is-changed-by-a-later-edit", fmt.Sprintf("the snapshot taken before edit #%d (%s) reads differently after the later edits:\nwhen taken %s\nnow        %s", h.at, c.Edits[h.at], h.want, got), c)
+			return
+		}
+	}
+}
+
+func TestC18SnapshotStable(t *testing.T) {
+	Drive(t, "C18", genC18Stable, runC18Stable)
 }
